@@ -5,7 +5,6 @@ import (
 	"go/ast"
 	"go/token"
 	"go/types"
-	"path/filepath"
 	"strings"
 
 	"gengoverif/checker/internal/cfgx"
@@ -162,7 +161,7 @@ func c02R1(p *core.Program, r *core.Report, pl *pipeline) {
 				continue
 			}
 			if call, isCall := ast.Unparen(x).(*ast.CallExpr); isCall && core.CalleeName(info, call) == "(*bytes.Buffer).Len" {
-				if fld := core.FieldOf(info, recvOf(call)); fld != nil && fld.Name() == "body" {
+				if fld := core.FieldOf(info, recvOf(call)); isRole(p, fld, "file.body") {
 					if (op == token.EQL && !fct.Val) || (op == token.NEQ && fct.Val) || (op == token.GTR && fct.Val) {
 						nonEmpty = true
 					}
@@ -232,7 +231,7 @@ func c02R2R3(p *core.Program, r *core.Report, pl *pipeline) {
 		return ""
 	}
 	// generator / callback invocations
-	doGen := p.FuncByName("pkg/gengo", "(*gengoCtx).doGenerate")
+	doGen := pl.dispatch
 	isGenCall := func(n ast.Node) string {
 		if n == nil {
 			return ""
@@ -262,12 +261,12 @@ func c02R2R3(p *core.Program, r *core.Report, pl *pipeline) {
 			}
 		}
 		// the named result tested in the deferred logger is not a step
-		if eb.v.Name() == "finalErr" {
+		if isNamedResult(f, eb.v) {
 			continue
 		}
 		n++
 		start := cfgx.Point{B: eb.br.B.Succs[eb.nonNil], I: 0}
-		tp, found := g.Reach(start, true, cfgx.Query{Target: func(q cfgx.Point) bool { return isEffect(q.Node()) != "" }})
+		tp, found := g.Reach(start, true, cfgx.Query{Target: func(q cfgx.Point) bool { return isEffect(q.Node()) != "" }, CutEdge: nonNilCut(g, info, f.Body, eb.v, start)})
 		why := ""
 		if found {
 			why = "after the " + what + " the function can still reach `" + core.ExprStr(tp.Node()) + "` (" + isEffect(tp.Node()) + "): a failed generation damages or rewrites output"
@@ -361,23 +360,36 @@ func wrapsWithNameAndPath(p *core.Program, f *core.Func, e ast.Expr, errv *types
 
 // ---- R4: error discipline ----
 
+// pipelineFuncs: the flattened units of pkg/gengo that are reachable from Execute (with their
+// literals), plus the sum-file writer. Which file a function lives in does not matter.
 func pipelineFuncs(p *core.Program, pl *pipeline) []*core.Func {
 	var out []*core.Func
+	seen := map[*core.Func]bool{}
+	root := pl.execute
+	if root.Origin != nil {
+		root = root.Origin
+	}
+	reach := reachableFrom(p, root)
 	for _, f := range p.Funcs() {
-		rel := core.RelPkg(f.Pkg.PkgPath)
-		file := filepath.Base(p.Fset.Position(f.Node().Pos()).Filename)
-		if (rel == "pkg/gengo" && (file == "context.go" || file == "genfile.go")) || (rel == "pkg/sumfile" && pl.save.Has(f)) {
-			out = append(out, f)
+		if f.Parent != nil || f.Decl == nil || !reach[f] || core.RelPkg(f.Pkg.PkgPath) != "pkg/gengo" {
+			continue
 		}
+		u := unitRoot(p, f)
+		if seen[u] {
+			continue
+		}
+		seen[u] = true
+		out = append(out, flatten(p, u).AllFuncs()...)
+	}
+	if pl.save != nil {
+		out = append(out, pl.save.AllFuncs()...)
 	}
 	return out
 }
 
 // a6Exceptions: callee (in function) -> reason. One symbol each.
 var a6Exceptions = map[string]string{
-	"pkg/gengo.(*gengoCtx).Execute|" + core.ModulePath + "/pkg/sumfile.Load": "a missing or unreadable gengo.sum means 'nothing is cached' (C08.R3): the error is deliberately dropped and the nil *File makes every package regenerate",
-	"*|fmt.Fprintf":     "writes into a *bytes.Buffer, which cannot fail",
-	"*|io.WriteString":  "writes into the generator's *bytes.Buffer, which cannot fail",
+	"<execute>|" + core.ModulePath + "/pkg/sumfile.Load": "a missing or unreadable gengo.sum means 'nothing is cached' (C08.R3): the error is deliberately dropped and the nil *File makes every package regenerate",
 	"*|(*os.File).Close": "deferred Close of the output file (reported by errcheck; not part of the property statement)",
 	"*|fmt.Println":     "diagnostic output of the syntax error position on stdout",
 	"*|fmt.Printf":      "diagnostic output of the syntax error position on stdout",
@@ -423,8 +435,39 @@ func c02R4(p *core.Program, r *core.Report, pl *pipeline) {
 			}
 			construct := "error of " + shortName(name) + " is handled"
 			exc := func() (string, bool) {
-				if why, ok := a6Exceptions[f.Root().QName()+"|"+name]; ok {
+				if why, ok := writeCannotFail(info, c, name); ok {
 					return why, true
+				}
+				// an io.Writer parameter that is an in-memory buffer at every call site
+				if (name == "fmt.Fprintf" || name == "fmt.Fprint" || name == "fmt.Fprintln" || name == "io.WriteString") && len(c.Args) >= 1 {
+					root := f.Root()
+					if root.Origin != nil {
+						root = root.Origin
+					}
+					if v := core.VarOf(info, c.Args[0]); v != nil && isParamOf(root, v) && root.Obj() != nil {
+						k, sites, all := paramIndex(root, v), 0, true
+						for _, cs := range allCalls(p) {
+							if cs.In.Body == nil || core.CalleeFunc(cs.In.Info(), cs.Call) != root.Obj() || k >= len(cs.Call.Args) {
+								continue
+							}
+							sites++
+							ts := ""
+							if t := cs.In.Info().TypeOf(cs.Call.Args[k]); t != nil {
+								ts = t.String()
+							}
+							if ts != "*bytes.Buffer" && ts != "*strings.Builder" {
+								all = false
+							}
+						}
+						if sites > 0 && all && len(funcValueUses(p, root.Obj())) == 0 {
+							return "the writer parameter is an in-memory buffer at every call site of " + root.Name, true
+						}
+					}
+				}
+				if pl.execute.Has(f.Root()) {
+					if why, ok := a6Exceptions["<execute>|"+name]; ok {
+						return why, true
+					}
 				}
 				why, ok := a6Exceptions["*|"+name]
 				return why, ok
@@ -625,7 +668,7 @@ func a6Discharged(p *core.Program, f *core.Func, g *cfgx.G, def cfgx.Point, ev *
 				}
 			case "os.IsNotExist":
 				// reviewed classifier: only before the create-retry in the file writer
-				if f.Root().Name == "(*genfile).WriteToFile" && len(c.Args) == 1 && core.VarOf(info, c.Args[0]) == ev {
+				if isFileWriterUnit(p, f.Root()) && len(c.Args) == 1 && core.VarOf(info, c.Args[0]) == ev {
 					return true
 				}
 			}
@@ -634,6 +677,7 @@ func a6Discharged(p *core.Program, f *core.Func, g *cfgx.G, def cfgx.Point, ev *
 	}
 	for _, t := range tests {
 		start := cfgx.Point{B: t.br.B.Succs[t.nonNil], I: 0}
+		nnCut, copies := nonNilInfo(g, info, f.Root().Body, ev, start)
 		tp, bad := g.Reach(start, true, cfgx.Query{
 			Target: func(q cfgx.Point) bool {
 				if !g.IsExit(q) {
@@ -649,13 +693,18 @@ func a6Discharged(p *core.Program, f *core.Func, g *cfgx.G, def cfgx.Point, ev *
 					return !isParamOf(f, ev)
 				}
 				last := ret.Results[len(ret.Results)-1]
-				return !core.Mentions(info, last, ev)
+				for cv := range copies {
+					if core.Mentions(info, last, cv) {
+						return false
+					}
+				}
+				return true
 			},
 			Cut: func(q cfgx.Point) bool {
 				// a redefinition of ev ends the derivation: what is returned afterwards is another error
 				return false
 			},
-			CutEdge: isClassifierEdge,
+			CutEdge: func(b *cfgBlock, k int) bool { return isClassifierEdge(b, k) || nnCut(b, k) },
 		})
 		if bad {
 			where := "the end of the function"
@@ -852,4 +901,158 @@ func c02R5(p *core.Program, r *core.Report, pl *pipeline) {
 		})
 		r.Check(okIt && nY == 1, rule, l, "the package iterator skips nothing and stops early only on !yield", l.Node().Pos(), "single yield per element; return only under !yield(...)", "the iterator over local packages can skip packages or stop early on its own: Execute would save sums for packages it never processed")
 	}
+}
+
+// isNamedResult: v is a named result of f.
+func isNamedResult(f *core.Func, v *types.Var) bool {
+	if f.Type == nil || f.Type.Results == nil || v == nil {
+		return false
+	}
+	for _, fld := range f.Type.Results.List {
+		for _, n := range fld.Names {
+			if f.Info().ObjectOf(n) == types.Object(v) {
+				return true
+			}
+		}
+	}
+	return false
+}
+
+// nonNilCut prunes, on a walk that starts where `seed` is known to be non-nil, the branch edges
+// that contradict it - for seed itself and for variables that only ever receive a copy of it
+// (`firstErr = err; break` ... `if firstErr != nil { return firstErr }`). A copy target qualifies
+// only if every other definition of it in the body is its declaration or a nil/zero initialisation.
+func nonNilCut(g *cfgx.G, info *types.Info, body ast.Node, seed *types.Var, start cfgx.Point) func(b *cfgBlock, k int) bool {
+	cut, _ := nonNilInfo(g, info, body, seed, start)
+	return cut
+}
+
+// nonNilInfo: the pruning function and the set of variables that hold (a copy of) the seed.
+func nonNilInfo(g *cfgx.G, info *types.Info, body ast.Node, seed *types.Var, start cfgx.Point) (func(b *cfgBlock, k int) bool, map[*types.Var]bool) {
+	nonNil := map[*types.Var]bool{seed: true}
+	for changed := true; changed; {
+		changed = false
+		g.Reach(start, true, cfgx.Query{Target: func(q cfgx.Point) bool {
+			as, ok := q.Node().(*ast.AssignStmt)
+			if !ok || len(as.Lhs) != len(as.Rhs) {
+				return false
+			}
+			for i := range as.Lhs {
+				w, v := core.VarOf(info, as.Lhs[i]), core.VarOf(info, as.Rhs[i])
+				if w == nil || v == nil || !nonNil[v] || nonNil[w] {
+					continue
+				}
+				clean := true
+				for _, d := range core.DefsOf(info, body, w) {
+					if d.Stmt == ast.Node(as) {
+						continue
+					}
+					if d.Rhs == nil {
+						continue // var w error
+					}
+					if id, isID := ast.Unparen(d.Rhs).(*ast.Ident); isID && id.Name == "nil" {
+						continue
+					}
+					if cv := core.VarOf(info, d.Rhs); cv != nil && nonNil[cv] {
+						continue
+					}
+					clean = false
+				}
+				if clean {
+					nonNil[w] = true
+					changed = true
+				}
+			}
+			return false
+		}})
+	}
+	d0, _ := reachingDefs(g, seed, start)
+	return func(b *cfgBlock, k int) bool {
+		if len(b.Succs) != 2 || len(b.Nodes) == 0 {
+			return false
+		}
+		e, ok := b.Nodes[len(b.Nodes)-1].(ast.Expr)
+		if !ok {
+			return false
+		}
+		for _, a := range cfgx.Atoms(e, k == 0) {
+			bb, isBin := ast.Unparen(a.Cond).(*ast.BinaryExpr)
+			if !isBin || (bb.Op != token.EQL && bb.Op != token.NEQ) {
+				continue
+			}
+			id, isID := ast.Unparen(bb.Y).(*ast.Ident)
+			if !isID || id.Name != "nil" {
+				continue
+			}
+			v := core.VarOf(info, bb.X)
+			if v == nil || !nonNil[v] {
+				continue
+			}
+			// this edge asserts v == nil ?
+			isNilHere := (bb.Op == token.EQL) == a.Val
+			if isNilHere {
+				if v == seed {
+					// the seed may have been re-assigned since the start (err = next()): prune only when the
+					// definitions reaching this test are the ones that reached the start
+					db, _ := reachingDefs(g, seed, cfgx.Point{B: b, I: len(b.Nodes) - 1})
+					if !samePointSet(d0, db) {
+						continue
+					}
+				}
+				return true
+			}
+		}
+		return false
+	}, nonNil
+}
+
+func samePointSet(a, b []cfgx.Point) bool {
+	if len(a) != len(b) {
+		return false
+	}
+	for _, x := range a {
+		found := false
+		for _, y := range b {
+			if x == y {
+				found = true
+			}
+		}
+		if !found {
+			return false
+		}
+	}
+	return true
+}
+
+// writeCannotFail: a write whose destination is statically an in-memory buffer
+// (*bytes.Buffer, *strings.Builder) always returns a nil error.
+func writeCannotFail(info *types.Info, c *ast.CallExpr, name string) (string, bool) {
+	inMem := func(e ast.Expr) bool {
+		t := info.TypeOf(e)
+		if t == nil {
+			return false
+		}
+		s := t.String()
+		return s == "*bytes.Buffer" || s == "*strings.Builder" || s == "bytes.Buffer" || s == "strings.Builder"
+	}
+	switch {
+	case strings.HasPrefix(name, "(*bytes.Buffer).Write") || strings.HasPrefix(name, "(*strings.Builder).Write"):
+		return "a write into an in-memory buffer cannot fail", true
+	case (name == "fmt.Fprintf" || name == "fmt.Fprint" || name == "fmt.Fprintln" || name == "io.WriteString") && len(c.Args) >= 1 && inMem(c.Args[0]):
+		return "writes into an in-memory buffer (" + info.TypeOf(c.Args[0]).String() + "), which cannot fail", true
+	}
+	return "", false
+}
+
+// isFileWriterUnit: f belongs to the unit that opens the output file (role, not name).
+func isFileWriterUnit(p *core.Program, f *core.Func) bool {
+	for _, cs := range callersOf(p, "os.OpenFile", "os.Create") {
+		if core.RelPkg(cs.In.Pkg.PkgPath) == "pkg/gengo" {
+			u := unit(p, cs.In)
+			if u.Has(f) {
+				return true
+			}
+		}
+	}
+	return false
 }
